@@ -19,7 +19,10 @@ CLAIMS["C09"] = claim("lean-model + harness seq (constructed xxhash64 collisions
     "costs at most a miss, and over every history each returned value was written for that very key (C09_values_have_provenance, "
     "by induction). Correspondence: real backends driven with algebraically constructed xxhash64 collisions, caller key buffers "
     "overwritten after every call, full-state comparison against the compiled model.",
-    "Aliasing (buffer reuse) is a runtime fact: the model has value semantics, that half is enforced by the adversarial harness only.",
+    "Aliasing (buffer reuse) is a runtime fact: the model has value semantics; that half rests on the structural facts re-read from the source "
+    "on every run and proved true in C09_skeleton_key_handling (key-lock table indexed by string(key), key copied before the go statement, "
+    "backends store a slice they made themselves) and on the adversarial harness (buffers rewritten after every call, single-P scenarios, "
+    "colliding keys through the frontend).",
     "Lean 4 proof (for all hash functions; invariant over histories) + model/implementation correspondence", "DESIGN.md §6 C09")
 CLAIMS["C10"] = claim("lean-model + harness seq",
     "Lean 4 theorems: effective ttl selection, jitter displacement bounded by |T|*J/2 for every T, J in (0,1], r in [0,1) "
